@@ -31,6 +31,9 @@ type tarInput struct {
 	Twice bool `json:"twice,omitempty"`
 	// Bare: an unfiltered view is exported as NewFS returns it (no WithHardlinkReset around it)
 	Bare bool `json:"bare,omitempty"`
+	// NoReset: a FILTERED view is exported as NewFilterFS returns it (no WithHardlinkReset around it): entries a pattern hides
+	// are never stat'ed by the walk, so the first name the view reports of an inode is the one that carries the bytes
+	NoReset bool `json:"noReset,omitempty"`
 	// Mounts: the view is a SubDirFS that mounts the (optionally filtered) tree once under each of these names
 	Mounts []string `json:"mounts,omitempty"`
 }
@@ -156,7 +159,7 @@ func runTar(c *Ctx, caseNo int, in tarInput) (vt.Ev, error) {
 			return nil, err
 		}
 	}
-	if !(in.Bare && len(in.Exc)+len(in.Inc) == 0) {
+	if !(in.Bare && len(in.Exc)+len(in.Inc) == 0) && !in.NoReset {
 		f = fsutil.WithHardlinkReset(f)
 	}
 	// where the bytes of a view path live on disk (the ground truth for member payloads: not the view's own Open)
@@ -343,6 +346,20 @@ func Tar(c *Ctx) error {
 		for _, mounts := range [][]string{{"a", "ab"}, {"ab", "a"}, {"m"}, {"a", "a-b", "ab"}} {
 			fixed = append(fixed, tarInput{Tree: t1, Mounts: mounts}, tarInput{Tree: t1, Mounts: mounts, Bare: true})
 		}
+	}
+	// filtered views in which the first walked name of an inode is hidden by a pattern that names the file itself: the
+	// surviving name must come out as a regular member with the bytes
+	{
+		mkg := func(p, data string, g int) model.Entry {
+			return model.Entry{Path: p, Type: "file", Perm: 0644, Mtime: uniqueMtime(), Data: []byte(data), Size: int64(len(data)), Content: model.ContentID([]byte(data)), Group: g}
+		}
+		dr := func(p string) model.Entry { return model.Entry{Path: p, Type: "dir", Perm: 0755, Mtime: uniqueMtime()} }
+		t2 := model.Tree{mkg("a", "shared-bytes", 500), mkg("b", "shared-bytes", 500), dr("d"), mkg("d/c", "shared-bytes", 500), mkg("z", "other", 0)}
+		t2.Sort()
+		for _, exc := range [][]string{{"a"}, {"a", "b"}, {"a*"}, {"b"}} {
+			fixed = append(fixed, tarInput{Tree: t2, Exc: exc}, tarInput{Tree: t2, Exc: exc, Twice: true}, tarInput{Tree: t2, Exc: exc, NoReset: true})
+		}
+		fixed = append(fixed, tarInput{Tree: t2, Inc: []string{"b", "d"}}, tarInput{Tree: t2, Inc: []string{"d", "z"}})
 	}
 	for i := 0; i < n+len(fixed); i++ {
 		var in tarInput
